@@ -231,11 +231,28 @@ def _state_problems(P, S):
     return out
 
 
+def _masked_in(prev_ev, action):
+    m = np.asarray(prev_ev.O["action_mask"])
+    ix = tuple(int(x) for x in action)
+    return all(0 <= i < n for i, n in zip(ix, m.shape)) and bool(m[ix])
+
+
+def _mask_respecting(trace):
+    """FlatPack can leave the agent without any legal action before the episode is over; the deterministic
+    workload policies then play an arbitrary action. Such episodes are no longer mask-respecting play."""
+    return all(_masked_in(trace[i - 1], trace[i].action) for i in range(1, len(trace)))
+
+
 def hard_constraints(P, trace):
     ev = trace[-1]
     S = ev.S
     R, C = P.params["rows"], P.params["cols"]
     sh = P.shadow
+    if ev.action is not None and (sh.get("void") or not _masked_in(trace[-2], ev.action)):
+        if not sh.get("void"):
+            P.hit("off_mask_action_ends_judgement")
+        sh["void"] = True
+        return []
     out = _state_problems(P, S)
     if ev.action is None or "count" not in sh:
         sh["count"] = np.zeros((R, C), np.int64)   # how many blocks cover each cell (cell multiset)
@@ -269,7 +286,7 @@ def hard_constraints(P, trace):
 
 def complete(P, trace):
     S = trace[-1].S
-    if not np.all(S["placed_blocks"]):
+    if not _mask_respecting(trace) or not np.all(S["placed_blocks"]):
         P.hit("ended_not_all_placed")
         return None
     P.hit("all_blocks_placed")
@@ -281,6 +298,9 @@ def complete(P, trace):
 
 def objective(P, trace):
     S = trace[-1].S
+    if not _mask_respecting(trace):
+        P.hit("episode_with_off_mask_action_skipped")
+        return None
     if P.params["reward"] == "cell":
         P.hit("covered_fraction")
         return float(np.mean(np.asarray(S["grid"]) != 0))
@@ -329,12 +349,77 @@ def _placements(blocks, R, C, mode):
 
 
 def _exact_cover(blocks, R, C, mode, cap):
-    """(True, [(block, (k, r, c))]) | (False, None) | (None, None) when the node cap was reached.
-    The lowest empty cell must be the lowest cell of the placement that covers it."""
+    """Exact cover of the R x C cells (and "every block exactly once") by the placements of `mode`, Knuth's
+    Algorithm X with the fewest-candidates column first. Blocks whose placement sets coincide are
+    interchangeable, so a cell set is tried once per such class.
+    Returns (True, [(block, (k, r, c))]) | (False, None) | (None, None) when the node cap was reached."""
+    N, nc = len(blocks), R * C
+    rows, info = [], []
+    for lst in _placements(blocks, R, C, mode).values():
+        for (b, mask, pl) in lst:
+            rows.append((b, mask))
+            info.append((b, pl))
+    n_rows = len(rows)
+    A = np.zeros((n_rows, nc + N), np.uint8)
+    masks_of = defaultdict(set)
+    for p, (b, mask) in enumerate(rows):
+        m = mask
+        while m:
+            low = m & -m
+            A[p, low.bit_length() - 1] = 1
+            m ^= low
+        A[p, nc + b] = 1
+        masks_of[b].add(mask)
+    classes = {}
+    cls = [classes.setdefault(frozenset(masks_of[b]), len(classes)) for b in range(N)]
+    Af = A.astype(np.float32)
+    nodes = [0]
+    sol = []
+
+    def rec(valid, uncovered):
+        nodes[0] += 1
+        if nodes[0] > cap:
+            return None
+        if not uncovered.any():
+            return True
+        cnt = valid.astype(np.float32) @ Af
+        cnt[~uncovered] = np.inf
+        col = int(np.argmin(cnt))
+        if cnt[col] == 0:
+            return False
+        tried = set()
+        for p in np.flatnonzero(valid & (A[:, col] > 0)):
+            b, mask = rows[p]
+            if (cls[b], mask) in tried:
+                continue
+            tried.add((cls[b], mask))
+            cols = np.flatnonzero(A[p])
+            left = uncovered.copy()
+            left[cols] = False
+            res = rec(valid & ~A[:, cols].any(axis=1), left)
+            if res:
+                sol.append(info[p])
+                return True
+            if res is None:
+                return None
+        return False
+
+    if n_rows == 0:
+        return False, None
+    old = sys.getrecursionlimit()
+    sys.setrecursionlimit(max(old, 5000))
+    try:
+        res = rec(np.ones(n_rows, bool), np.ones(nc + N, bool))
+    finally:
+        sys.setrecursionlimit(old)
+    return (res, sol[::-1]) if res else (res, None)
+
+
+def _first_cell_search(blocks, R, C, mode, cap):
+    """Plain depth-first fallback: the lowest empty cell must be the lowest cell of the placement covering it."""
     by_first = _placements(blocks, R, C, mode)
     full = (1 << (R * C)) - 1
     nodes = [0]
-    sol = []
 
     def rec(occ, used):
         nodes[0] += 1
@@ -344,24 +429,20 @@ def _exact_cover(blocks, R, C, mode, cap):
             return True
         inv = ~occ & full
         first = (inv & -inv).bit_length() - 1
-        for (b, mask, pl) in by_first.get(first, ()):
+        for (b, mask, _) in by_first.get(first, ()):
             if (used >> b) & 1 or (mask & occ):
                 continue
             res = rec(occ | mask, used | (1 << b))
-            if res:
-                sol.append((b, pl))
-                return True
-            if res is None:
-                return None
+            if res or res is None:
+                return res
         return False
 
     old = sys.getrecursionlimit()
     sys.setrecursionlimit(max(old, 5000))
     try:
-        res = rec(0, 0)
+        return rec(0, 0)
     finally:
         sys.setrecursionlimit(old)
-    return (res, sol[::-1]) if res else (res, None)
 
 
 def instance(P, S0, ev):
@@ -384,12 +465,14 @@ def instance(P, S0, ev):
         out.append(f"cells_sum_to_grid: the blocks have {n_cells} cells in total, the grid has {R * C}")
     if out:
         return out
-    # abstract tiling (rotations allowed, only the cells have to stay inside the grid)
-    res, _ = _exact_cover(blocks, R, C, "home", cap=20000)
+    # abstract tiling (rotations allowed, only the cells have to stay inside the grid); any tiling is a certificate
+    res, _ = _exact_cover(blocks, R, C, "home", cap=300)
     if res:
         P.hit("tiling_certified_home_aligned")
     else:
-        res, _ = _exact_cover(blocks, R, C, "free", cap=150000)
+        res, _ = _exact_cover(blocks, R, C, "free", cap=4000)
+        if res is None:
+            res = _first_cell_search(blocks, R, C, "free", cap=150000)
         if res:
             P.hit("tiling_certified_free_search")
     if res is None:
@@ -399,7 +482,7 @@ def instance(P, S0, ev):
     else:
         P.hit("tiling_certified")
     # playability through the action space (3x3 box inside the grid): an observation, never a verdict
-    play, _ = _exact_cover(blocks, R, C, "boxed", cap=60000)
+    play, _ = _exact_cover(blocks, R, C, "boxed", cap=1500)
     P.hit("playable_completion_exists" if play else ("playable_completion_undecided" if play is None else "no_playable_completion"))
     return out
 
@@ -428,7 +511,7 @@ def _pol_complete(ctx):
     if "fp_plan" not in ctx:
         blocks = np.asarray(st.blocks).astype(np.int64)
         R, C = np.asarray(st.grid).shape
-        res, sol = _exact_cover(blocks, R, C, "boxed", cap=60000)
+        res, sol = _exact_cover(blocks, R, C, "boxed", cap=3000)
         ctx["fp_plan"] = sol if res else []
     m = np.asarray(ctx["ts"].observation.action_mask)
     placed = np.asarray(st.placed_blocks)
